@@ -302,7 +302,7 @@ impl Engine for C14 {
         } else {
             GenCfg::small()
         };
-        let kind = rng.weighted(&[10, 3, 2, 2, 3, 3, 2]);
+        let kind = rng.weighted(&[10, 3, 2, 2, 3, 3, 2, 3]);
         let (body, kname) = match kind {
             0 => (gen_wire(&mut rng, ty, false, &cfg), "valid"),
             1 => {
@@ -331,6 +331,37 @@ impl Engine for C14 {
                 let mut a = it.as_array().cloned().unwrap_or_default();
                 a.push(refcbor::Item::bytes(b"x"));
                 (refcbor::encode(&refcbor::Item::array(a)), "element-added")
+            }
+            7 => {
+                // valid body whose headers carry "type hints" that name ANOTHER COSE structure: the
+                // CoAP content formats / tag numbers 16, 17, 18, 96, 97, 98 and the registered media
+                // types, as content type and under the typ-like extension labels
+                let it = gen_item(&mut rng, ty, &cfg);
+                let mut a = it.as_array().cloned().unwrap_or_default();
+                let f = *rng.pick(&[16i128, 17, 18, 96, 97, 98, 61, 101]);
+                let mut m: Vec<(refcbor::Item, refcbor::Item)> = Vec::new();
+                if rng.bool() {
+                    m.push((refcbor::Item::uint(3), refcbor::Item::int(f)));
+                }
+                for l in [16u64, 10, 32, 256] {
+                    if rng.chance(1, 2) {
+                        let v = if rng.chance(1, 4) {
+                            refcbor::Item::text(["application/cose; cose-type=\"cose-sign1\"", "application/cose; cose-type=\"cose-mac0\"", "application/cose-key"][rng.below(3)])
+                        } else {
+                            refcbor::Item::int(f)
+                        };
+                        m.push((refcbor::Item::uint(l), v));
+                    }
+                }
+                let hdr = refcbor::Item::map(m);
+                if a.len() >= 2 {
+                    if rng.bool() {
+                        a[1] = hdr;
+                    } else {
+                        a[0] = refcbor::Item::bytes(&refcbor::encode(&hdr));
+                    }
+                }
+                (refcbor::encode(&refcbor::Item::array(a)), "type-hints")
             }
             6 => {
                 // valid body whose unprotected header carries a value nested right at the CBOR
